@@ -288,6 +288,9 @@ func runLive(c *vrun.Case) vrun.Result {
 	w.B.P.AliasN = 2
 	// stream alias 0 is a legal value: in half of the cases the first upstream of the connection gets it
 	w.B.P.UpAliasFromZero = r.Intn(2) == 0
+	// a broker may hand the alias of a closed stream to the next one at once (two churn goroutines: one stream's close
+	// and the next stream's open overlap)
+	w.B.P.RecycleUpAlias = r.Intn(2) == 0
 	// opens of the churn goroutine whose session id starts with "refused" are refused by the broker
 	w.B.OnMsg = func(lc *broker.LinkCtx, m message.Message, unrel bool) bool {
 		if t, ok := m.(*message.UpstreamOpenRequest); ok && strings.HasPrefix(t.SessionID, "refused") {
@@ -418,6 +421,45 @@ func runLive(c *vrun.Case) vrun.Result {
 	churn := 0
 	var cwg sync.WaitGroup
 	stopChurn := make(chan struct{})
+	// second churn goroutine: short-lived upstreams that ARE judged (three chunks, every ack must reach the stream's own
+	// hook before Close returns); its opens and closes overlap those of the first churn goroutine
+	var churn2Viol *vrun.Result
+	churn2 := 0
+	cwg.Add(1)
+	go func() {
+		defer cwg.Done()
+		for churn2Viol == nil {
+			select {
+			case <-stopChurn:
+				return
+			default:
+			}
+			rec := uplib.NewRecorder(w.Clock)
+			up, err := conn.OpenUpstream(ctx, fmt.Sprintf("short-%d", churn2), append(rec.Options(), iscp.WithUpstreamQoS(message.QoSReliable), iscp.WithUpstreamFlushPolicyImmediately(), iscp.WithUpstreamCloseTimeout(5*time.Second))...)
+			if err != nil {
+				continue
+			}
+			id := message.DataID{Name: "short", Type: "t"}
+			for k := 1; k <= 3; k++ {
+				rec.Write(ctx, up, 1, id, []int{k}, []int{8})
+			}
+			t0 := time.Now()
+			cerr := up.Close(ctx)
+			took := time.Since(t0)
+			select {
+			case <-rec.ClosedCh:
+			case <-time.After(10 * time.Second):
+			}
+			_, _, acks, _ := rec.Snapshot()
+			if cerr == nil && len(acks) != 3 {
+				v := vrun.Violation("a short-lived upstream did not get the acknowledgements of its three chunks while other streams of the connection were opened and closed", "live-isolation:short-stream-acks-lost",
+					map[string]any{"stream": churn2, "ack_hook_calls": len(acks), "close_took": took.String(), "alias_recycling": w.B.P.RecycleUpAlias, "alias_from_zero": w.B.P.UpAliasFromZero})
+				churn2Viol = &v
+				return
+			}
+			churn2++
+		}
+	}()
 	cwg.Add(1)
 	go func() {
 		defer cwg.Done()
@@ -448,6 +490,9 @@ func runLive(c *vrun.Case) vrun.Result {
 	wg.Wait()
 	close(stopChurn)
 	cwg.Wait()
+	if churn2Viol != nil {
+		return *churn2Viol
+	}
 	for _, u := range ups {
 		if err := u.up.Close(ctx); err != nil {
 			return vrun.Inconcl("close upstream: " + err.Error())
@@ -509,6 +554,7 @@ func runLive(c *vrun.Case) vrun.Result {
 	x.Desc = desc
 	x.Stat("streams_judged", int64(nu+nd))
 	x.Stat("churn_cycles", int64(churn))
+	x.Stat("short_streams_judged", int64(churn2))
 	x.Stat("upstream_writes", int64(nu*nwrites))
 	x.Stat("downstream_chunks", int64(nd*nchunks))
 	return x
